@@ -41,11 +41,15 @@ def setup(cell, seed, tag, rep, zero_M=False, wide=False):
         kc = float(rng.choice(gen.KAPPAS[:4]))
         kx = float(rng.choice(gen.KAPPAS[:4]))
         c, tc, kw = build.mk_conditional(ck, rng, Rc, Dy, Dx, kappa=kc, zero_M=zero_M)
-        p, tp = build.mk_pdf(rng, Rx, Dx, kappa=kx)
+        # the prior's class is part of the operand space: a diagonal density (its own constructor
+        # and inversion) in about a third of the cases
+        pdiag = bool(rng.random() < 0.35)
+        p, tp = build.mk_pdf(rng, Rx, Dx, kappa=kx, diag=pdiag)
         tj = build.joint_truth(tc, tp)
         info_wide = not gen.in_domain(tj.Sigma_xy)
         if gen.in_domain(tj.Sigma_y) and (not info_wide or (wide and gen.cond(tj.Sigma_xy) < 1e7)):
             info = {"ck": ck, "Dx": Dx, "Dy": Dy, "Rc": Rc, "Rx": Rx, "kappa_c": kc,
-                    "kappa_x": kx, "rep": rep, "joint_ill_conditioned": bool(info_wide)}
+                    "kappa_x": kx, "rep": rep, "joint_ill_conditioned": bool(info_wide),
+                    "prior_class": "GaussianDiagPDF" if pdiag else "GaussianPDF"}
             return rng, c, tc, kw, p, tp, tj, info, attempt
     return None
